@@ -69,7 +69,7 @@ LeafStmt(lf, d) == IF lf.k = "enterraise" THEN With(Cm(d, TRUE, "none", FALSE), 
 (* only (tf..), except only (tebody3, tehandleras, tehandlerre), except+else (tebody1/2, tehandler,     *)
 (* teelse), except+finally (tef..), except+else+finally (teef..) -- and body and else of both loops can  *)
 (* hold the hole.                                                                                        *)
-Contexts == { "forbody", "forelse", "foriter", "whilebody", "whileelse", "ifthen",
+Contexts == { "forbody", "forelse", "foriter", "foriterE", "whilebody", "whileelse", "ifthen",
               "tfbody", "tffin", "tffinexc", "tffinret",
               "tebody1", "tebody2", "tebody3", "tehandler", "tehandleras", "tehandlerre", "tehandlerloop", "teelse",
               "loophandlerre", "tefbody", "tefhandler", "teffin",
@@ -86,6 +86,9 @@ Wrap(c, d, x) ==
   CASE c = "forbody"   -> For("range", B(d, x), << Mk(d, 3) >>)
     [] c = "forelse"   -> For("range", << Mk(d, 1) >>, << Mk(d, 3), x, Mk(d, 4) >>)
     [] c = "foriter"   -> For("raising", B(d, x), << Mk(d, 3) >>)
+    \* the iterator fails with Exception itself - an ANCESTOR of StopIteration is not StopIteration: the loop is left by
+    \* the exception, its else clause does not run, only a bare except (or one naming Exception/BaseException) handles it
+    [] c = "foriterE"  -> For("raisingE", B(d, x), << Mk(d, 3) >>)
     [] c = "whilebody" -> [k |-> "while", body |-> B(d, x), orelse |-> << Mk(d, 3) >>, ln |-> 0, nx |-> 0]
     [] c = "whileelse" -> [k |-> "while", body |-> << Mk(d, 1) >>, orelse |-> << Mk(d, 3), x, Mk(d, 4) >>, ln |-> 0, nx |-> 0]
     [] c = "ifthen"    -> [k |-> "if", then |-> B(d, x), orelse |-> << Mk(d, 3) >>, ln |-> 0, nx |-> 0]
@@ -302,7 +305,7 @@ NewId(g, id) == [g EXCEPT !.nid = id, !.open = @ \cup {id}]
 (* __next__ raises KeyError, which leaves the loop like any exception raised at the for statement *)
 ForEnd(S, base, f) ==
   IF f.it = "range" THEN [S EXCEPT !.ks = PushSeq(base, f.orelse), !.lab = "for:exhausted"]
-  ELSE RaiseAt(S, base, "KeyError", << {f.ln}, {NextRaise} >>, "for:iterator-raises", NoNext)
+  ELSE RaiseAt(S, base, IF f.it = "raisingE" THEN "Exception" ELSE "KeyError", << {f.ln}, {NextRaise} >>, "for:iterator-raises", NoNext)
 
 WhileTest(S, base, f) ==
   { LET S1 == [S EXCEPT !.inp = Append(@, v)] IN
